@@ -36,6 +36,20 @@ def f64_ops(ops, salt: int = 1):
     return out
 
 
+def grad_ops(ops):
+    """the same history with every floating argument attached to an autograd graph (registry.grad_variant)."""
+    from .registry import grad_variant
+    out = []
+    for op in ops:
+        if op[0] == "u":
+            out.append(("u", grad_variant(op[1])))
+        elif op[0] == "m":
+            out.append(("m", [[grad_variant(b) for b in bl] for bl in op[1]]))
+        else:
+            out.append(op)
+    return out
+
+
 def build_sources(spec: Spec, cfg: dict, lists):
     srcs = []
     for bl in lists:
